@@ -43,6 +43,7 @@ type Cfg struct {
 	DiscDelay int64  `json:"discdelay"` // socket write time of a DiscReq, µs
 	Slack     int64  `json:"slack"`     // real-time tolerance for timing clauses, µs
 	Poll      int64  `json:"poll"`      // socket hand-off retry period, µs
+	Linger    int64  `json:"linger"`    // router: how long a hand-off in progress stays on offer after the socket was closed, µs
 }
 
 // Step is one environment choice.
